@@ -16,6 +16,10 @@ import (
 
 // SendBundle transmits an outbounding bundle.
 func (c *Core) SendBundle(bndl *bpv7.Bundle) {
+	// The sequence number is part of the bundle's ID and therefore of its key within the store. Thus, it must be
+	// assigned before the bundle is signed and stored.
+	c.idKeeper.update(bndl)
+
 	if c.signPriv != nil && bndl.IsAdministrativeRecord() {
 		c.sendBundleAttachSignature(bndl)
 	}
@@ -51,8 +55,6 @@ func (c *Core) transmit(bp BundleDescriptor) {
 	log.WithFields(log.Fields{
 		"bundle": bp.ID(),
 	}).Info("Transmission of bundle requested")
-
-	c.idKeeper.update(bp.MustBundle())
 
 	bp.AddConstraint(DispatchPending)
 	_ = bp.Sync()
